@@ -507,7 +507,7 @@ def dispatch (j : Json) : Except String Json := do
           | .error _ => do
               let a ← arr (e.getObjValD "p")
               pure (PackF.Event.pack 1 (← nat a[1]!)))
-      let guard := getB j "guard" Generated.packOwnerGuard
+      let guard := getB j "guard" (if getB j "plain" false then Generated.packOwnerGuardPlain else Generated.packOwnerGuard)
       let ofP (o : PackF.Outcome) : Json := match o with
         | .packedBy c o => Json.str s!"by:{c}:{o}"
         | .noMethod => Json.str "nomethod"
